@@ -8,7 +8,7 @@
 
    A formula is (N, F): N = F.number_of_variables(), F = the clause list; the
    result of a transformation is (numvar, clause list) in the order the code
-   emits clauses, or SValueErr where the code raises ValueError.
+   emits clauses, or TValueErr where the code raises ValueError.
 
    Abstracted:
    - headers, variable labels and the variable-group objects of the new
@@ -31,11 +31,11 @@ From Cnfgen Require Import Sem Comb Linear.
 Import ListNotations.
 Open Scope Z_scope.
 
-Inductive sres (A : Type) : Type :=
-| SOk (x : A)
-| SValueErr.
-Arguments SOk {A} x.
-Arguments SValueErr {A}.
+Inductive tres (A : Type) : Type :=
+| TOk (x : A)
+| TValueErr.
+Arguments TOk {A} x.
+Arguments TValueErr {A}.
 
 (* ---------- apply_substitution ---------- *)
 
@@ -56,9 +56,9 @@ Definition subst_block (k v : Z) : list Z :=
 Definition polarity (l : Z) : Z := if l >? 0 then 1 else 0.
 
 (* the common frame: positive_int(k); new_block(k) once per variable; add clauses *)
-Definition block_subst (N k : Z) (F : cnf) (g : Z -> cnf) : sres (Z * cnf) :=
-  if k <? 1 then SValueErr
-  else let out := apply_subst F g in SOk (numvar_add (k * N) out, out).
+Definition block_subst (N k : Z) (F : cnf) (g : Z -> cnf) : tres (Z * cnf) :=
+  if k <? 1 then TValueErr
+  else let out := apply_subst F g in TOk (numvar_add (k * N) out, out).
 
 (* ---------- gadgets ---------- *)
 
@@ -163,20 +163,20 @@ Definition anything_but_k_substitution N n k F := linear_substitution N n CNe k 
 Definition ite_substitution (N : Z) (F : cnf) : Z * cnf :=
   let out := apply_subst F (ite_gadget N) in (numvar_add (3 * N) out, out).
 
-Definition formula_lifting (N k : Z) (F : cnf) : sres (Z * cnf) :=
-  if k <? 1 then SValueErr
+Definition formula_lifting (N k : Z) (F : cnf) : tres (Z * cnf) :=
+  if k <? 1 then TValueErr
   else let out := lift_selectors N k ++ apply_subst F (lift_gadget k) in
-       SOk (numvar_add (2 * k * N) out, out).
+       TOk (numvar_add (2 * k * N) out, out).
 
 Inductive compfn := CompXor | CompMaj | CompOther.
 Definition variable_compression (N : Z) (F : cnf) (R : Z) (adj : list (list Z)) (fn : compfn)
-  : sres (Z * cnf) :=
+  : tres (Z * cnf) :=
   match fn with
-  | CompOther => SValueErr
+  | CompOther => TValueErr
   | _ =>
-    if negb (len adj =? N) then SValueErr
+    if negb (len adj =? N) then TValueErr
     else let out := apply_subst F (match fn with CompXor => comp_xor adj | _ => comp_maj adj end) in
-         SOk (numvar_add R out, out)
+         TOk (numvar_add R out, out)
   end.
 
 (* ---------- the induced assignment on the original variables ---------- *)
